@@ -268,6 +268,44 @@ pub fn run(run: &Run) {
             run_case(run, &c, lo, st)
         },
     );
+    // data-guided: spellings of real dictionary words (every final character class), bare and with a suffix, and
+    // every word the dictionary lists twice ("no candidate text occurs twice" must not lean on clean data)
+    let twice = crate::gen::twice_listed_words();
+    let mut guided: Vec<(String, bool)> = vec![];
+    for w in &twice {
+        match crate::gen::romanise_validated(w) {
+            Some(sp) => guided.push((sp, true)),
+            None => {}
+        }
+    }
+    let twice_typeable = guided.len();
+    let sk = &p.suffix_keys;
+    for (i, (sp, _)) in crate::gen::guided_bases().iter().enumerate() {
+        guided.push((sp.clone(), false));
+        if i % 3 == 0 {
+            guided.push((format!("{sp}{}", sk[(i * 31) % sk.len()]), false));
+        }
+    }
+    let gitems: Vec<(usize, (String, bool))> = guided.into_iter().enumerate().collect();
+    run.exhaustive(
+        "dictionary-guided-spellings",
+        &gitems,
+        |_| mk_local(),
+        |(i, (text, is_twice)), st, lo| {
+            if *is_twice {
+                st.label("typed-a-twice-listed-dictionary-word");
+            }
+            // the twice-listed words under all 8 option sets, the others under one
+            for k in 0..(if *is_twice { 8 } else { 1 }) {
+                let c = Case { text: text.clone(), optidx: *i + k, user: vec![] };
+                run_case(run, &c, lo, st)?;
+            }
+            Ok(())
+        },
+    );
+    if !twice.is_empty() {
+        run.require_label("typed-a-twice-listed-dictionary-word", twice_typeable.max(1) as u64);
+    }
     run.sharded("generated-words", 16, run.tier.pick(700, 25000), 800, strategy, |_| mk_local(), |c: &Case, st, lo| run_case(run, c, lo, st));
     run.require_label("has-suffix-built", 50);
     run.require_label("has-autocorrect", 50);
